@@ -30,7 +30,7 @@ inductive Res where
 structure Case where
   site : String
   tmpl : String
-  kind : String       -- lit | key | ident | kindname | param | paramlist
+  kind : String       -- lit | key | ident | kindname | param | paramlist | bname | bkey (builder name / builder key or value)
   hraw : Str
   braw : Str
   hval : Str
@@ -133,6 +133,8 @@ def tokBrief : Tok → String
   | .estr v => "estr" ++ showStr v
   | .bstr v => "bstr" ++ showStr v
   | .qident v => "qident" ++ showStr v
+  | .ustr v => "ustr" ++ showStr v
+  | .uident v => "uident" ++ showStr v
   | .dollar t b => "dollar" ++ showStr t ++ showStr b
   | .word v => "word" ++ showStr v
   | .num v => "num" ++ showStr v
@@ -148,7 +150,7 @@ def mism (cls : String) (i : Nat) (th tb : Tok) : Cmp :=
 
 /-- the rule for one pair of non-nested tokens; returns 1 when a value token carries the text under test -/
 def cmpTok (cfg : Cfg) (i : Nat) (th tb : Tok) : Cmp :=
-  let isName := cfg.kind == "ident" || cfg.kind == "kindname"
+  let isName := cfg.kind == "ident" || cfg.kind == "kindname" || cfg.kind == "bname"
   match th, tb with
   | .str vh, .str vb =>
     if vh == vb then .ok 0
@@ -269,9 +271,12 @@ def judgeOk (c : Case) (sqlH : Str) (pgxH : Int) (pH : List (String × PVal))
   let nh := harnessArgs th
   let nb := harnessArgs tb
   let nestedNames := (nb.filterMap (fun i => match (tb[i]? : Option Tok) with | some (Tok.param n) => some n | _ => none))
-  let verbatim := c.kind == "ident" && sqlH == replaceAll c.braw c.hraw sqlB
+  -- the hostile text was written into the SQL text as it is (the twin's text replaced by it gives the hostile SQL)
+  let verbatimName := (c.kind == "ident" || c.kind == "bname") && sqlH == replaceAll c.braw c.hraw sqlB
+  let verbatimKey := c.kind == "bkey" && sqlH == replaceAll c.braw c.hraw sqlB
   let fail (cls detail : String) : Verdict :=
-    let cls' := if verbatim && (cls == "shape-mismatch" || cls == "value-mismatch" || cls == "lex-error") then "unquoted-identifier" else cls
+    let generic := cls == "shape-mismatch" || cls == "value-mismatch" || cls == "lex-error"
+    let cls' := if verbatimName && generic then "unquoted-identifier" else if verbatimKey && generic then "unquoted-key" else cls
     { pass := false, cls := cls', detail := detail, ntoks := th.length, nested := nh.length }
   match hasBadTok tb with
   | some t => { pass := false, cls := "benign-lex-error", detail := tokBrief t }
